@@ -42,5 +42,32 @@ j = s.index("| id | region | witness |", i)
 s = s[:i] + re.sub(r"\(\d+ entries", f"({len(known)} entries", s[i:j]) + s[j:]
 s = replace_table(s, "Recorded, not repaired (", "| id | region | witness |",
                   [f"| {d['id']} | {d['region'].replace('|', '/')} | {d['witness'].replace('|', '/')} |" for d in known])
+# 10.1: numeric columns from the evidence files of the last run
+import os
+i = s.index("| id | level | functions under contract | obligations (all discharged) |")
+lines = s[i:].split("\n")
+n = 0
+for ln in lines:
+    if ln.startswith("|"):
+        n += 1
+    else:
+        break
+rows = lines[:n]
+new = rows[:2]
+for r in rows[2:]:
+    cells = [c.strip() for c in r.strip("|").split("|")]
+    ev = f"/verif/evidence/{cells[0]}.json"
+    if os.path.exists(ev):
+        e = json.load(open(ev))
+        c = e["coverage"]
+        ob = c.get("obligations")
+        ob = ob if isinstance(ob, int) else len(ob)
+        suffix = " (table)" if "(table)" in cells[3] else ""
+        cells[1] = e["level"]
+        cells[2] = str(len(c.get("functions_under_contract", [])))
+        cells[3] = f"{ob}{suffix}"
+        cells[4] = f"{c.get('evaluations'):,}".replace(",", " ")
+    new.append("| " + " | ".join(cells) + " |")
+s = s[:i] + "\n".join(new) + s[i + len("\n".join(rows)):]
 open(D, "w").write(s)
 print(f"{len(fixes)} fixes, {len(known)} known findings")
